@@ -279,6 +279,11 @@ bool QXmppRegistrationManager::handleStanza(const QDomElement &stanza)
             d->deleteAccountIqId.clear();
             return true;
         } else if (QXmppRegisterIq::isRegisterIq(stanza)) {
+            // only responses are handled here; requests get the default error reply
+            if (const auto type = stanza.attribute(u"type"_s); type == u"get" || type == u"set") {
+                return false;
+            }
+
             QXmppRegisterIq iq;
             iq.parse(stanza);
 
